@@ -189,6 +189,9 @@ class Tle:
             TleParseError
         """
 
+        if len(text) != 2:
+            raise TleParseError(f"A TLE is made of 2 lines, got {len(text)}")
+
         if not text[0].lstrip().startswith("1 ") or not text[1].lstrip().startswith(
             "2 "
         ):
